@@ -1,12 +1,12 @@
 CONSTANTS
-  Kind = "bw"
+  Kind = "bb"
   Items <- FileItems
   Fanout = 2
   CacheCap = 2
   Queries <- AllQ
-  ZRecs <- NoZ
+  ZRecs <- FileZ
   MaxSteps = 3
-  FileId = 1
+  FileId = 5
 INIT MCInit
 NEXT MCNext
 INVARIANTS HistoryIndependent ZoomHistoryIndependent CacheCoherent Emit
